@@ -10,7 +10,7 @@ use verif_harness::sched::{self, Sched};
 
 static DROPS: Mutex<Vec<u64>> = Mutex::new(Vec::new());
 
-struct A(u64);
+pub struct A(u64);
 struct B(u64, String);
 struct C(Box<u64>);
 impl Drop for A { fn drop(&mut self) { DROPS.lock().unwrap().push(self.0); } }
@@ -59,6 +59,7 @@ trait Help {
     fn via_mut(&mut self, s: u64) -> u64 { self.req(s) }
     fn via_ref(&self, s: u64) -> u64 { self.req(s) }
     fn via_pin(self: std::pin::Pin<&mut Self>, s: u64) -> u64 { self.req(s) }
+    fn bref(&self) -> &A;
 }
 
 /// an instance that has lent values is dropped while its thread unwinds from an unrelated panic: the values are
@@ -78,7 +79,7 @@ fn run_unwind_drop(n: usize, clone: bool, out: &mut impl Write) {
 }
 
 /// values lent through the delegation helpers of provided methods stay alive until the mock is torn down
-fn run_helper(n: usize, out: &mut impl Write) {
+fn run_helper(n: usize, end: usize, out: &mut impl Write) {
     let mut u = Unimock::new(HelpMock::req.each_call(matching!(_)).answers(&|u, s| { u.make_ref(A(s)); s }));
     let mut early = vec![];
     let mut wrong = 0;
@@ -89,9 +90,36 @@ fn run_helper(n: usize, out: &mut impl Write) {
         let d = take_drops();
         if !d.is_empty() { early.push(format!("after-call-{}:[{}]", k + 1, d)); }
     }
-    drop(u);
+    // how the instance ends: dropped; re-configured with no_verify_in_drop() first (nothing may be released by that); verified explicitly
+    match end {
+        1 => {
+            let u2 = u.no_verify_in_drop();
+            let d = take_drops();
+            if !d.is_empty() { early.push(format!("after-no_verify_in_drop:[{}]", d)); }
+            drop(u2);
+        }
+        2 => u.verify(),
+        _ => drop(u),
+    }
     let fin = take_drops();
     writeln!(out, "helper n={} wrong={} early=[{}] dropped_at_teardown={}", n, wrong, early.join(";"), fin.split(',').filter(|x| !x.is_empty()).count()).unwrap();
+}
+
+/// a value configured with returns() for a borrowed return lives in the mock: it is dropped exactly once, when the last instance
+/// sharing the state goes — however that instance ends (drop, verify(), report())
+fn run_returns_drop(end: usize, out: &mut impl Write) {
+    let u = Unimock::new(HelpMock::bref.each_call(matching!()).returns(A(77)));
+    let c = u.clone();
+    let reads = (u.bref().0, c.bref().0);
+    drop(c);
+    let early = take_drops();
+    match end {
+        1 => u.verify(),
+        2 => { let _ = std::process::Termination::report(u); }
+        _ => drop(u),
+    }
+    let fin = take_drops();
+    writeln!(out, "returnsdrop end={} reads={:?} early=[{}] dropped_after_end=[{}]", end, reads, early, fin).unwrap();
 }
 
 /// the drop log in the order the values were released (a chain releases root first)
@@ -270,7 +298,10 @@ fn main() {
                     run_unwind_drop(proto::kv_num(&t, "n"), proto::kv_num(&t, "clone") == 1, &mut out);
                 } else if let Some(h) = ops.iter().find(|o| o[0] == "helper") {
                     let t: Vec<&str> = h.iter().map(|s| s.as_str()).collect();
-                    run_helper(proto::kv_num(&t, "n"), &mut out);
+                    run_helper(proto::kv_num(&t, "n"), proto::kv_num(&t, "end"), &mut out);
+                } else if let Some(h) = ops.iter().find(|o| o[0] == "returnsdrop") {
+                    let t: Vec<&str> = h.iter().map(|s| s.as_str()).collect();
+                    run_returns_drop(proto::kv_num(&t, "end"), &mut out);
                 } else if let Some(d) = ops.iter().find(|o| o[0] == "deep") {
                     // a long chain released by one make_mut, on a thread with a small stack: the release must not recurse per node
                     let t: Vec<&str> = d.iter().map(|s| s.as_str()).collect();
